@@ -513,7 +513,10 @@ func (ctx Ctx) selectorMethod(f *ast.SelectorExpr, call *ast.CallExpr) coq.Expr 
 		}
 	}
 
-	namedTy := deref.(*types.Named)
+	namedTy, ok := deref.(*types.Named)
+	if !ok {
+		ctx.unsupported(f, "method call on unnamed type %v", deref)
+	}
 	tyName := ctx.qualifiedName(namedTy.Obj())
 	callArgs := append([]ast.Expr{f.X}, args...)
 	fullName := coq.MethodName(tyName, f.Sel.Name)
